@@ -371,6 +371,9 @@ class Run:
             raise EngineError(f"cannot coerce {v} to {ty}")
         if v.ty == ty:
             return v
+        h0 = self.x.reg.stubs.get(("coerce", v.ty.name, ty.name))
+        if h0 is not None:
+            return h0(self, v, ty)
         if isinstance(ty, TOpt):
             if v.ty is TNone:
                 return Val(ty, ty.none())
@@ -948,6 +951,9 @@ class Run:
     def ex_Dict(self, node, fr):
         if not node.keys:
             return Conc(("emptydict",))
+        if all(k is not None for k in node.keys):
+            # small literal handed to a stub (e.g. context.update({KEY: value})): kept at the meta level
+            return Conc(("dictlit", [(self.ev(k, fr), self.ev(v, fr), v) for k, v in zip(node.keys, node.values)]))
         raise EngineError(f"dict display without declared type (line {node.lineno})")
 
     def ex_Yield(self, node, fr):
